@@ -11,11 +11,12 @@ pkg=$(grep -m1 '^package ' $demo | awk '{print $2}')
 case $pkg in
   exec|exec_test) dir=pkg/exec;; value|value_test) dir=pkg/value;; runtime|runtime_test) dir=pkg/runtime;;
   zh|zh_test) dir=pkg/syntax/zh;; syntax|syntax_test) dir=pkg/syntax;; io|io_test) dir=pkg/io;; common|common_test) dir=pkg/common;;
-  json|json_test) dir=stdlib/json;; server|server_test) dir=pkg/server;; *) dir=pkg/exec;;
+  json|json_test) dir=stdlib/json;; server|server_test) dir=pkg/server;; mutdemo|mutdemo_test) dir=pkg/server/mutdemo;; *) dir=pkg/exec;;
 esac
+mkdir -p $W/$dir
 cp $demo $W/$dir/zz_seed_demo_test.go
 # pkg/server builds on Linux only with the verif tag, and two of its own tests fail on the unchanged tree: run the demo alone
-DT=""; [ $dir = pkg/server ] && DT="-tags verif -run TestMutDemo"
+DT=""; case $dir in pkg/server*) DT="-tags verif -run TestMutDemo";; esac
 (cd $W && go test -vet=off -count=1 $DT ./$dir/ >/tmp/seedverify.base 2>&1); base=$?
 if ! git -C $W apply $D/patch.diff; then echo "PATCH DOES NOT APPLY"; git -C /repo worktree remove --force $W; exit 3; fi
 (cd $W && go test -vet=off -count=1 $DT ./$dir/ >/tmp/seedverify.mut 2>&1); mut=$?
